@@ -805,6 +805,29 @@ class Ref:
             if isinstance(x, RDS):
                 return self.map_measures(x, f)
             return f(x, TRUE)
+        if op == "instr":
+            # instr(s, pattern, start = 1, occurrence = 1): 1-based position of the occurrence found searching from `start`; 0 when not found
+            x = self.ev(node.children[0])
+            ps = [None if (type(p_).__name__ == "ID" and p_.value == "_") else self.ev(p_) for p_ in node.params]
+            while len(ps) < 3:
+                ps.append(None)
+            if ps[0] is None:
+                raise Unsupported("oracle: instr without pattern")
+            if ps[2] is not None and not (z3.is_int_value(z3.simplify(ps[2][0].val)) and z3.simplify(ps[2][0].val).as_long() == 1):
+                raise Unsupported("oracle: instr occurrence > 1")
+            pat = self.to_str(ps[0][0])
+            if ps[1] is not None and not z3.is_int_value(z3.simplify(ps[1][0].val)):
+                raise Unsupported("oracle: instr with a non-constant start")
+            start = 1 if ps[1] is None else z3.simplify(ps[1][0].val).as_long()
+            if start < 1:
+                raise Unsupported("oracle: instr start < 1")
+
+            def f(mv, g):
+                sv_ = self.to_str(mv[0])
+                return SV("int", z3.Or(sv_.null, pat.null), z3.IndexOf(sv_.val, pat.val, start - 1) + 1), "Integer"
+            if isinstance(x, RDS):
+                return self.map_measures(x, f)
+            return f(x, TRUE)
         if op == "replace":
             # replace(s, pattern, replacement): every occurrence (the builtin itself is a symbol shared with the SQL side); a missing
             # replacement is the empty string
